@@ -440,6 +440,10 @@ def finish(rep, t_start):
     undecided = [o for o in obs if o["status"] in ("unknown", "partial")]
     refuted = [o for o in obs if o["status"] == "refuted"]
     level = "proof" if (n_ob and n_dis == n_ob and not rep.standins) else "other"
+    cap = api.PROPERTY_LEVEL.get(prop)
+    cap_note = ""
+    if cap is not None:
+        level, cap_note = cap[0], " Level capped: " + cap[1]
     wall = time.time() - t_start
     ev = {
         "property_id": prop, "tier": rep.tier, "seed": rep.seed, "level": level,
@@ -449,8 +453,8 @@ def finish(rep, t_start):
             "trusted_base": sorted(rep.trusted),
             "explanation": ("%d obligations generated from the current source text of %d repository files; %d discharged "
                             "(back ends: %s); %d refuted; %d not decided deductively (bounded stand-ins: %d, never counted "
-                            "as proved)." % (n_ob, len([f for f in rep.files if "/src/pyModeS/" in f]), n_dis,
-                                            json.dumps(backends), len(refuted), len(undecided), len(rep.standins))),
+                            "as proved).%s" % (n_ob, len([f for f in rep.files if "/src/pyModeS/" in f]), n_dis,
+                                            json.dumps(backends), len(refuted), len(undecided), len(rep.standins), cap_note)),
             "functions_under_contract": sorted(rep.functions),
             "backends": backends,
             "solver_seconds": round(solver_s, 3),
